@@ -212,3 +212,11 @@ class Purity:
             return
         ref = fresh_calls[fn][0]()
         same(base + "/after-parameter-update", r4, ref)
+        # the same through an in-place edit of the shell's own exponent array, then renormalisation
+        newer = M.vec("k", 1, "pos")
+        basis[1].exps[:] = newer
+        basis[1].assign_norm_cont()
+        r5 = f()
+        fresh2, _ = build_basis(M, params=dict(params, ea=new_e, da=new_d, eb=M.array(np.array(newer, dtype=object).copy())))
+        ref2 = public_calls(M, fresh2, extra)[fn][0]()
+        same(base + "/after-in-place-parameter-update", r5, ref2)
